@@ -9,7 +9,7 @@ use tree_sitter_tags::{TagsConfiguration, TagsContext};
 pub fn meta(tier: &str) -> CheckMeta {
     CheckMeta {
         id: "C18", level: "model_checking",
-        rule: "E-box: language `tagl` (functions, classes, calls, lets, doc comments, Unicode identifiers) with a tags query (doc capture with #strip! and #select-adjacent!, an @ignore pattern, #is-not? local) and a locals query; sources = seeds + all strings of <=k lexemes (valid and erroneous) + line families: 1..4 calls on one line with 0/1/2/3/4-byte characters placed before and inside names in every position, lines of 170..190 bytes with a multi-byte character straddling byte 180, CRLF lines; ONE TagsContext reused. Oracle, recomputed from the source bytes and our own evaluation of which nodes are tagged: the set of tags (by name node) equals the expected set (definitions of functions/classes, non-local non-ignored calls); name_range within range within the text; line_range = trimmed line containing the name, cut at 180 bytes on a character boundary; span = the name's row/column; utf16_column_range = UTF-16 length of the line prefix and of the name, recomputed from scratch for every tag; docs = stripped text of the adjacent doc comments. Non-trivial = sources that produce at least one tag.",
+        rule: "E-box: language `tagl` (functions, classes, calls, lets, doc comments, Unicode identifiers) with a tags query (doc capture with #strip! and #select-adjacent!, an @ignore pattern, #is-not? local) and a locals query; sources = seeds + all strings of <=k lexemes (valid and erroneous) + line families: 1..4 calls on one line with 0/1/2/3/4-byte characters placed before and inside names in every position, lines of 170..190 bytes with a multi-byte character straddling byte 180, CRLF lines; ONE TagsContext reused. Oracle, recomputed from the source bytes and our own evaluation of which nodes are tagged: the set of tags (by name node) equals the expected set (definitions of functions/classes, non-local non-ignored calls); name_range within range within the text; line_range = trimmed line containing the name, cut at 180 bytes on a character boundary; span = the name's row/column; utf16_column_range = UTF-16 length of the line prefix and of the name, recomputed from scratch for every tag; docs = stripped text of the adjacent doc comments. A lambda's body is a reference and the last token of its scope. Non-trivial = sources that produce at least one tag.",
         assumptions: vec!["a name is local if an enclosing scope holds a definition of the same text that starts before it".into()],
         exhaustive: true,
         bounds: json!({"tier": tier, "lexeme_strings_k": if tier == "quick" { 4 } else { 5 }}),
